@@ -41,7 +41,7 @@ def _limit():
     resource.setrlimit(resource.RLIMIT_AS, (gib, gib))
 
 
-def run_faults(ctx, fmt, cpath, ncases, tag):
+def run_faults(ctx, fmt, cpath, ncases, tag, env_extra=None):
     """Runs the decoders of one format over the cases.  If the process dies (an allocation
     the runtime cannot satisfy is not recoverable) the case that killed it is recorded with
     outcome "crash" and the run resumes after it."""
@@ -65,7 +65,7 @@ def run_faults(ctx, fmt, cpath, ncases, tag):
                "skipsites=" + ",".join(sorted(k for k, v in site_crashes.items() if v >= 4))]
         try:
             p = subprocess.run(cmd, cwd=ctx.dir, stdout=subprocess.PIPE, stderr=subprocess.PIPE, text=True,
-                               timeout=1500, preexec_fn=_limit)
+                               timeout=1500, preexec_fn=_limit, env=dict(os.environ, **(env_extra or {})))
         except subprocess.TimeoutExpired:
             raise Infra("fault harness timed out (%s)" % tag)
         recs = []
